@@ -587,6 +587,15 @@ class Gen:
                 fin.append(("return", I(555)))      # a control statement directly in finally is discarded
         if not catches and not fin:
             fin.append(LOG("F" + bid, S("finally")))
+        if r.random() < 0.08 and fin:
+            # a block whose body is empty (`do finally ... end`, `do catch all ... finally ... end`): nothing can fail in
+            # it, its value is TRUE, and its finally part still runs once - and what that part raises still goes outward
+            stmts = []
+            # (another tag than F<bid>: the exactly-once checker pairs those with the block's 'enter' event, which an
+            # empty body does not log; the log comparison with the reference run decides here)
+            fin = [LOG("E" + bid, S("finally"))] + [f for f in fin if f[0] != "call"]
+            if r.random() < 0.5 and not any(f[0] == "error" for f in fin):
+                fin.append(("error", ("lit", r.choice(self.ERR_VALUES))))
         return ("block", stmts, catches, fin)
 
     def error_program(self):
